@@ -498,7 +498,7 @@ func (x *Exec) external(fn *ssa.Function, args []Val) (Val, bool) {
 			cnt = x.binInt(token.ADD, cnt.(Int), x.ite(e, mkInt(1), mkInt(0)).(Int))
 		}
 		return cnt, true
-	case "strings.ToLower", "strings.ToUpper", "strings.TrimSpace", "strings.Title", "strings.Fields", "strings.Split", "strings.EqualFold":
+	case "strings.ToLower", "strings.ToUpper", "strings.TrimSpace":
 		if a, ok := concAll(args, 0); ok {
 			switch name {
 			case "strings.ToLower":
@@ -509,11 +509,28 @@ func (x *Exec) external(fn *ssa.Function, args []Val) (Val, bool) {
 				return strOf(strings.TrimSpace(a[0])), true
 			}
 		}
-		panic(unsupported{name + " on a symbolic string"})
+		return nil, false // symbolic: interpreted from the standard library's source
+	case "internal/bytealg.CountString":
+		return x.external(x.P.stdFunc("strings", "Count"), []Val{args[0], Str{B: []Int{args[1].(Int)}}})
+	case "internal/bytealg.MakeNoZero":
+		n := x.subst(args[0].(Int))
+		if !n.conc() || n.sval() < 0 || n.sval() > 1<<20 {
+			panic(unsupported{"MakeNoZero with symbolic length"})
+		}
+		a := Array{E: make([]Val, n.sval())}
+		for i := range a.E {
+			a.E[i] = Int{W: 8}
+		}
+		return Slice{Arr: x.newCell(a, "bytes"), Len: int(n.sval()), Cap: int(n.sval())}, true
 	case "fmt.Errorf":
 		parts := x.strParts(args)
 		return x.errorValue(opaque("errorf", parts...)), true
-	case "fmt.Sprintf", "fmt.Sprint", "fmt.Sprintln":
+	case "fmt.Sprintf":
+		if v, ok := x.sprintf(args); ok {
+			return v, true
+		}
+		return opaque("sprintf", x.strParts(args)...), true
+	case "fmt.Sprint", "fmt.Sprintln":
 		return opaque("sprintf", x.strParts(args)...), true
 	case "strconv.Quote":
 		return opaque("quote", args[0].(Str)), true
@@ -1473,4 +1490,71 @@ func (x *Exec) syncModel(name string, args []Val) (Val, bool) {
 		}
 	}
 	return nil, false
+}
+
+// sprintf: fmt.Sprintf for concrete formats built from %s %d %v %% applied to
+// strings and concrete integers; anything else stays opaque.
+func (x *Exec) sprintf(args []Val) (Val, bool) {
+	format, ok := args[0].(Str).concrete()
+	if !ok {
+		return nil, false
+	}
+	var vals []Val
+	if sl, ok := args[1].(Slice); ok {
+		vals = x.sliceElems(sl)
+	}
+	out := Str{}
+	k := 0
+	for i := 0; i < len(format); i++ {
+		c := format[i]
+		if c != '%' {
+			out = x.strConcat(out, strOf(string(c)))
+			continue
+		}
+		i++
+		if i >= len(format) {
+			return nil, false
+		}
+		if format[i] == '%' {
+			out = x.strConcat(out, strOf("%"))
+			continue
+		}
+		if k >= len(vals) {
+			return nil, false
+		}
+		iv, isI := vals[k].(Iface)
+		k++
+		if !isI || iv.L != nil {
+			return nil, false
+		}
+		switch format[i] {
+		case 's', 'v':
+			if s, ok := iv.V.(Str); ok && iv.T != nil && types.Identical(iv.T.Underlying(), types.Typ[types.String]) {
+				out = x.strConcat(out, s)
+				continue
+			}
+			if n, ok := iv.V.(Int); ok && format[i] == 'v' && x.subst(n).conc() {
+				out = x.strConcat(out, strOf(strconv.FormatInt(x.subst(n).sval(), 10)))
+				continue
+			}
+			return nil, false
+		case 'd':
+			n, ok := iv.V.(Int)
+			if !ok || !x.subst(n).conc() {
+				return nil, false
+			}
+			n = x.subst(n)
+			if n.S {
+				out = x.strConcat(out, strOf(strconv.FormatInt(n.sval(), 10)))
+			} else {
+				out = x.strConcat(out, strOf(strconv.FormatUint(n.uval(), 10)))
+			}
+		default:
+			return nil, false
+		}
+	}
+	if k != len(vals) {
+		return nil, false
+	}
+	return out, true
 }
